@@ -23,7 +23,7 @@ import c06_gen, c06_exprs as X
 
 ID = "C06"
 PROPS_FILE = "Props/C06.v"
-MODEL_TARGETS = ["Corr/C06_Eval.v"]
+MODEL_TARGETS = ["Corr/C06_Eval.v", "Corr/C06_P4_Eval.v"]
 ALLOWED_AXIOMS = []
 RULE = ("(a) helper calls: x, y from the 64-bit boundary set {0, +-1, +-2^k, +-2^k+-1, min, max, 0x55.., 0xAA..} squared, random "
         "pairs, shift counts 0..70 and {2^31, 2^32, 2^32+1, 2^40, 2^53}; constructor arguments incl. negative/overflowing low and "
@@ -35,26 +35,36 @@ RULE = ("(a) helper calls: x, y from the 64-bit boundary set {0, +-1, +-2^k, +-2
 TRUSTED = [
     "V8's IEEE-754 double arithmetic and ToInt32/ToUint32/Math.imul/Math.fround as summarised at the top of coq/Base/C06_JsNum.v",
     "c06_jsgen.py: parser/translator from the emitted JavaScript expression of each template into Gallina (shallow embedding); "
-    "coq/Proofs/C06_Tie.v re-checks by conversion that the hand-written model equals the translation for all 627 templates",
-    "Model/C06_Prelude64.v: $mul64/$div64/$shift*64/constructors transliterated by hand, tied by correspondence (a)",
+    "coq/Proofs/C06_Tie.v and C06_P4_Conv.v re-check by conversion that the hand-written model equals the translation for all 631 templates",
+    "Model/C06_Prelude64.v: $mul64/$div64 (both loops)/$shift*64/$flatten64/constructors transliterated by hand from numeric.js and types.js "
+    "(now proved correct for all operands; the transliteration itself is tied by correspondence (a): real helpers in node vs the model, row by row)",
     "native Go 1.23 and BigInt as references for the specification side; harness/js/c06_helpers.js; generated Go programs",
-    "float32/float64/complex arithmetic: not modelled, compared bit-exactly with native Go only",
+    "float32/float64/complex arithmetic and float32 rounding of 64-bit values: not modelled, compared bit-exactly with native Go only; "
+    "a float64 operand of a conversion is modelled as the exact rational n/d it denotes (Model/C06_P4_Conv.jreal)",
 ]
 ASSUMPTIONS = [
     "operands of an integer template are in range for their kind (established inductively by the result-in-range theorems; a -0 "
     "operand is covered by the value-level theorems)",
-    "shift counts are non-negative (a negative run-time count not panicking is a documented permitted difference, C01)",
-    "float -> integer conversions are only specified (and only generated) for values in range of the target kind",
+    "shift counts are non-negative (a negative run-time count not panicking is a documented permitted difference, C01); a 64-bit shift "
+    "count reaches the helper as the JS number Fin n (theorems: every n >= 0; counts above 2^53 are rounded doubles >= 2^53, compared only)",
+    "float -> integer conversions are only specified (and only generated) for values whose truncation is in range of the target kind; "
+    "the float64 -> 64-bit theorem assumes the constructor variant probed in this run (v_ctor = Math.trunc), the Math.ceil variant is refuted",
+    "64-bit -> float64 is proved exact for |x| <= 2^53 only (above, the correctly rounded double is compared with Number(BigInt) and native Go)",
 ]
-TECHNIQUE = ("Coq proofs over a JS-number model of every emitted integer template (regenerated from the compiler's real output each run) "
-             "+ differential correspondence with the real prelude helpers (vs BigInt) and compiled programs (vs native Go)")
-LEVEL_TEXT = ("Machine-checked: for every non-64-bit integer kind and every operator the emitted template equals the Go specification "
-              "for all in-range operands (unbounded, by proof; known defect classes isolated by refutation theorems and excluded by "
-              "explicit hypotheses, per probed repair variant); 64-bit add/sub/bitwise/compare/neg/shift/conversion templates and the "
-              "constructor normalisation likewise; $mul64 for all operands. The hand model is re-proved convertible with the compiler's "
-              "real output on every run.")
-LEVEL_NOTE = ("$div64 is modelled and tied differentially (grid^2 vs BigInt and vs the model) but its loop invariant is not proved "
-              "(div64 theorem is partial: exhaustive on a bounded family); floats/complex: correspondence only.")
+TECHNIQUE = ("Coq proofs over a JS-number model of every emitted integer template (regenerated from the compiler's real output each run) and of "
+             "the 64-bit runtime helpers (loop invariants for $div64, case analysis on the count for the 64-bit shifts, digit arithmetic for $mul64) "
+             "+ differential correspondence with the real prelude helpers (vs BigInt, and row by row vs the model) and compiled programs (vs native Go)")
+LEVEL_TEXT = ("Machine-checked: for every integer kind (8..64 bits) and EVERY binary operator, unary operator, comparison, shift (any "
+              "count >= 0, variable or constant) and integer conversion the emitted template equals the Go specification for all in-range "
+              "operands (unbounded, by proof): the 9 kinds of at most 32 bits as before; for int64/uint64 now also / and % through $div64 "
+              "(both loops by stated invariants; truncated quotient, remainder with the dividend's sign, throw exactly on a zero divisor, "
+              "MinInt64 / -1) and $shiftLeft64/$shiftRightInt64/$shiftRightUint64 for every count (0, <32, 32, 32..63, >=64), so "
+              "C06_int64_full_statement is closed (C06_int64_binop_correct, no _partial). float64 -> int64/uint64 through the constructor "
+              "truncates toward zero for every in-range value (Math.trunc variant; Math.ceil variant refuted), int64/uint64 -> float64 "
+              "($flatten64) is exact for |x| <= 2^53. The hand model is re-proved convertible with the compiler's real output (631 templates) on every run.")
+LEVEL_NOTE = ("Still correspondence only (bit patterns vs native Go, no model): float32/float64/complex arithmetic, float32 rounding of 64-bit "
+              "values (recorded finding int64-to-float32-double-rounding stays a known finding), 64-bit -> float64 above 2^53 (rounded double vs "
+              "Number(BigInt)), shift counts above 2^53. The prelude helpers are hand-transliterated (tied differentially, not parsed).")
 
 GEN = {}
 
@@ -114,7 +124,7 @@ def coq_eval_jobs(ctx, name, jobs):
     p = os.path.join(ctx.work, name + ".v")
     with open(p, "w") as f:
         f.write("From Coq Require Import ZArith List NArith.\nFrom Verif Require Import Base.C06_JsNum Model.C06_Prelude64 Model.C06_Spec "
-                "Gen.C06_Tables Model.C06_Templates Corr.C06_Eval.\nImport ListNotations.\nLocal Open Scope Z_scope.\n")
+                "Gen.C06_Tables Model.C06_Templates Corr.C06_Eval Model.C06_P4_Conv Corr.C06_P4_Eval.\nImport ListNotations.\nLocal Open Scope Z_scope.\n")
         for j, (defs, call) in enumerate(jobs):
             f.write(defs)
             f.write("Definition M%d := Eval vm_compute in %s.\nPrint M%d.\n" % (j, call, j))
@@ -197,6 +207,17 @@ def helpers(ctx):
             if abs(num) < 2 ** 53 and (sg or num >= 0):
                 reals.append([num, den])
         jobs.append(dict(id="ctorreal/%d/sub" % sg, h="ctorreal", sg=sg, xs=fx[:1], ys=reals, raw=True))
+        # phase 4: 64-bit -> float64 ($flatten64): neighbourhoods of 0, 2^31, 2^32 multiples, 2^53 (the exactness bound), extremes
+        fl = set(v for v in full if sg or v >= 0)
+        for base in (0, 2 ** 31, 2 ** 32, 2 ** 33, 2 ** 52, 2 ** 53, 3 * 2 ** 32, (2 ** 21 - 1) * 2 ** 32, 2 ** 63 - 2 ** 10):
+            for dlt in (-2, -1, 0, 1, 2, 2 ** 31, 2 ** 32 - 1):
+                for sgn in ((1, -1) if sg else (1,)):
+                    fl.add(sgn * (base + dlt))
+        for _ in range(150 if quick else 3000):
+            fl.add(r.randint(-2 ** 53 if sg else 0, 2 ** 53))
+            fl.add(r.getrandbits(r.choice([31, 32, 33, 40, 54, 63])) * (r.choice([1, -1]) if sg else 1))
+        fl = sorted(v for v in fl if (-(1 << 63) <= v < (1 << 63) if sg else 0 <= v < (1 << 64)))
+        jobs.append(dict(id="flatten/%d/sub" % sg, h="flatten", sg=sg, xs=[split64(sg, v) for v in fl], ys=[[0, 0]], raw=True))
     inp = json.dumps(dict(repo=C.REPO, jobs=jobs)).encode()
     rc, out, err = C.sh2(["node", os.path.join(C.JS, "c06_helpers.js")], inp=inp, timeout=1800)
     if rc == 124:
@@ -213,13 +234,16 @@ def helpers(ctx):
         job = jobsby[jid]
         for b in res["bad"][:3]:
             sig = "%s64-%s-wrong" % (job["h"], "signed" if job["sg"] else "unsigned")
+            if job["h"] == "flatten":
+                big = abs(b["x"][0] * 2 ** 32 + b["x"][1]) > 2 ** 53
+                sig = "flatten64-%s-%s" % ("signed" if job["sg"] else "unsigned", "rounding-wrong" if big else "inexact-below-2p53")
             if job["h"] == "ctorreal":
                 n, d = b["y"]
                 if n > 0 and n % d != 0 and isinstance(b["got"], list) and isinstance(b["want"], list) and b["got"][0] != b["want"][0]:
                     sig = "float-to-int64-ceil-carry"
             ctx.violation(sig, "%s(%s) on x=%r y=%r returns %r, exact integer arithmetic (BigInt) gives %r" % (
                 dict(mul="$mul64", quo="$div64", rem="$div64 rem", shl="$shiftLeft64", shr="$shiftRightInt64", ushr="$shiftRightUint64",
-                     ctor="new $Int64/$Uint64", ctorreal="new $Int64/$Uint64(0, float)")[job["h"]],
+                     ctor="new $Int64/$Uint64", ctorreal="new $Int64/$Uint64(0, float)", flatten="$flatten64")[job["h"]],
                 "signed" if job["sg"] else "unsigned", b["x"], b["y"], b["got"], b["want"]),
                 dict(kind="helper", h=job["h"], sg=job["sg"], x=b["x"], y=b["y"], got=b["got"], want=b["want"], total_bad=res.get("nbad", 0)))
     ctx.evaluations += ncalls
@@ -231,7 +255,7 @@ def helpers(ctx):
     # ---- the same rows through the Coq model: one coqc process per signedness
     files = {True: [], False: []}
     for jid, job in jobsby.items():
-        if not jid.endswith("/sub") or job["h"] == "ctorreal":
+        if not jid.endswith("/sub") or job["h"] in ("ctorreal", "flatten"):
             continue
         n = len(files[job["sg"]])
         ys = "[" + "; ".join("(%s, %s)" % (coq_z(a), coq_z(b)) for a, b in job["ys"]) + "]"
@@ -245,6 +269,18 @@ def helpers(ctx):
             if isinstance(got, list):
                 real_rows.append("(%s, %s, %s, %s, %s)" % ("true" if sg else "false", coq_z(n), coq_z(d), coq_z(got[0]), coq_z(got[1])))
     files[True].append(("Definition rrows := [%s].\n" % "; ".join(real_rows), "bad_reals rrows", None))
+    # phase 4: the same constructor rows through the EMITTED float64 -> 64-bit template, and the $flatten64 rows through the
+    # emitted 64-bit -> float64 template (only |value| <= 2^53: above, the model says "inexact")
+    files[False].append(("Definition forows := [%s].\n" % "; ".join(real_rows), "bad_fo forows", "fo"))
+    flat_rows = []
+    for sg in (True, False):
+        jid = "flatten/%d/sub" % sg
+        for x, got in zip(jobsby[jid]["xs"], results[jid]["raw"]):
+            if isinstance(got, int) and abs(x[0] * 2 ** 32 + x[1]) <= 2 ** 53:
+                flat_rows.append("(%s, %s, %s, %s)" % ("true" if sg else "false", coq_z(x[0]), coq_z(x[1]), coq_z(got)))
+            elif abs(x[0] * 2 ** 32 + x[1]) <= 2 ** 53:
+                flat_rows.append("(%s, %s, %s, %s)" % ("true" if sg else "false", coq_z(x[0]), coq_z(x[1]), coq_z(2 ** 60)))   # -0 / non-integer: never equal
+    files[False].append(("Definition ofrows := [%s].\n" % "; ".join(flat_rows), "bad_of ofrows", "of"))
 
     def run(sg):
         return sg, coq_eval_jobs(ctx, "h_%d" % sg, [(d, c) for d, c, _ in files[sg]])
@@ -258,6 +294,19 @@ def helpers(ctx):
                 ctx.violation("model-eval-failed", "Coq evaluation of the helper model failed", dict(signed=sg, log=log), concrete=False)
             continue
         for (defs, call, job), bad in zip(files[sg], res):
+            if job == "fo":
+                nrows += len(real_rows)
+                for i in bad[:2]:
+                    ctx.violation("float-to-int64-template-model-mismatch", "emitted float64 -> 64-bit conversion template (model) and the real constructor disagree",
+                                  dict(kind="conv-fo", row=real_rows[i], correspondence="Corr/C06_P4_Eval.fo_model vs new $Int64/$Uint64(0, n/d)"), concrete=False)
+                continue
+            if job == "of":
+                nrows += len(flat_rows)
+                ctx.cov["flatten_rows_vs_model"] = len(flat_rows)
+                for i in bad[:2]:
+                    ctx.violation("int64-to-float64-template-model-mismatch", "emitted 64-bit -> float64 conversion template (model) and the real $flatten64 disagree",
+                                  dict(kind="conv-of", row=flat_rows[i], correspondence="Corr/C06_P4_Eval.of_model vs $flatten64"), concrete=False)
+                continue
             if job is None:
                 nrows += len(real_rows)
                 for i in bad[:2]:
